@@ -74,6 +74,19 @@ func checkMapContract(n datamodel.Node, neverKeys []string) (pairs int, err erro
 	if k, v, err := it.Next(); err == nil && (k != nil || v != nil) {
 		return pairs, fmt.Errorf("Next() after the end yielded (%v, %v) without error", k, v)
 	}
+	if n.Length() != int64(pairs) {
+		return pairs, fmt.Errorf("Length() changed to %d after reading past the end of an iterator (was %d)", n.Length(), pairs)
+	}
+	if pairs > 1 {
+		// an iteration dropped half way leaves the node as it was
+		pit := n.MapIterator()
+		for i := 0; i < (pairs*2)/3 && !pit.Done(); i++ {
+			_, _, _ = pit.Next()
+		}
+		if n.Length() != int64(pairs) {
+			return pairs, fmt.Errorf("Length() = %d after an abandoned iteration, iteration yields %d pairs", n.Length(), pairs)
+		}
+	}
 	// native iterator agrees on the count
 	nd, hasNative := n.(nativeDir)
 	if hasNative {
@@ -372,4 +385,37 @@ func TestC15_R_Basics(t *testing.T) {
 		t.Fatalf("C15 basics: pairs=%d err=%v", pairs, err)
 	}
 	_ = unixfsnode.Reify
+}
+
+// A long-lived node: millions of operations on one reified sharded directory must leave it exactly as usable as a fresh one.
+func TestC15_R_LongLivedNode(t *testing.T) {
+	st := NewStore()
+	var es []entrySpec
+	for i := 0; i < 400; i++ {
+		es = append(es, entryFor(fmt.Sprintf("n%d", i), 0))
+	}
+	root, _, err := buildSharded(st, es, 8)
+	if err != nil {
+		t.Fatal(err)
+	}
+	rn, err := loadReified(st.LinkSystem(), root, "unixfs")
+	if err != nil {
+		t.Fatal(err)
+	}
+	total := scale(2500000, 6000000)
+	for i := 0; i < total; i++ {
+		name := es[i%len(es)].Name
+		v, err := rn.LookupByString(name)
+		if err != nil {
+			t.Fatalf("C15 long-lived node: lookup #%d of %q failed: %v", i, name, err)
+		}
+		if i%100000 == 0 {
+			if c, _ := linkOf(v); c != es[i%len(es)].Cid {
+				t.Fatalf("C15 long-lived node: lookup #%d wrong link", i)
+			}
+		}
+	}
+	if _, err := checkMapContract(rn, []string{"nope"}); err != nil {
+		t.Fatalf("C15 long-lived node after %d lookups: %v", total, err)
+	}
 }
